@@ -73,10 +73,9 @@ Proof.
   apply zin_spec in E. rewrite forallb_forall in H. apply H. apply zrange_in. cbn. lia.
 Qed.
 
-Section WithDb.
+Section WithBucket.
   Variable bucket : Z -> list row.
   Variable row_of : Z -> option row.
-  Hypothesis Hsame : forall o, bucket_row_of_ok row_of (bucket o) = true.
 
   (* every denotation's decorations are the decoded head's, as read by its row *)
   Theorem denote_deco_head : forall m bs rid ops dd len,
@@ -99,18 +98,21 @@ Section WithDb.
     rewrite Eh in Eh'. inversion Eh'; subst h' rest'. subst dd1 dd2. cbn. auto.
   Qed.
 
-  (* verdict 0: the call's decorations are those of the bytes' head, read by a row of the called mnemonic, and nothing
-     else was appended *)
-  Theorem judge_ok_head : forall m name ops dc bs,
-    fst (judge bucket row_of m name ops dc bs) = 0 ->
+  (* what a matching denotation of one bucket function says about the call's decorations *)
+  Definition head_reading (m : mode) (name : Z) (dc : deco) (bs : bytes) : Prop :=
     exists h rest r isreg,
       sdec_head m bs = Some (h, rest) /\ In r (bucket (rh_opc h)) /\ r_name r = name /\
       d_lock dc = p_lock (rh_pfx h) /\ d_k dc = rh_aaa h /\ d_z dc = rh_z h /\
       d_f2 dc = d_f2 (head_deco r h isreg) /\ d_f3 dc = d_f3 (head_deco r h isreg) /\
       d_seg dc = d_seg (head_deco r h isreg) /\ d_rc dc = d_rc (head_deco r h isreg).
+
+  Hypothesis Hsame : forall o, bucket_row_of_ok row_of (bucket o) = true.
+
+  Lemma match_head_reading : forall m name dc bs rid dops dd len r,
+    In (rid, dops, dd, len) (denote bucket m bs) -> row_of rid = Some r -> r_name r = name -> deco_match dc dd = true ->
+    head_reading m name dc bs.
   Proof.
-    intros m name ops dc bs H.
-    destruct (judge_ok_spec bucket row_of _ _ _ _ _ H) as [rid [dops [dd [r [Hin [Er [Hn [Hd _]]]]]]]].
+    intros m name dc bs rid dops dd len r Hin Er Hn Hd.
     destruct (denote_deco_head _ _ _ _ _ _ Hin) as [h [rest [r' [b [Eh [I [Id E]]]]]]].
     pose proof (Hsame (rh_opc h)) as HS. unfold bucket_row_of_ok in HS. rewrite forallb_forall in HS. specialize (HS r' I).
     rewrite Id, Er in HS. pose proof (same_reading_deco _ _ h b HS) as HD. unfold row_same_reading in HS.
@@ -119,4 +121,53 @@ Section WithDb.
     apply deco_match_eq in Hd. destruct Hd as [A [B [C [D [K [Z0 R]]]]]].
     exists h, rest, r', b. rewrite E in *. cbn in A, K, Z0. repeat split; auto.
   Qed.
+End WithBucket.
+
+Section WithDb.
+  Variable bucket : Z -> list row.
+  Variable wbucket : Z -> list row.
+  Variable row_of : Z -> option row.
+  Hypothesis Hsame : forall o, bucket_row_of_ok row_of (bucket o) = true.
+  Hypothesis Hsamew : forall o, bucket_row_of_ok row_of (wbucket o) = true.
+
+  (* verdict 0: the call's decorations are those of the bytes' head, read by a row of the called mnemonic -- of the appended bytes
+     themselves (one instruction), or, for an x87 wait form, of the bytes that follow the leading FWAIT (9B), read by a wait row *)
+  Theorem judge_ok_head : forall m name ops dc bs,
+    fst (judge bucket wbucket row_of m name ops dc bs) = 0 ->
+    head_reading bucket m name dc bs \/ exists rest, bs = 155 :: rest /\ head_reading wbucket m name dc rest.
+  Proof.
+    intros m name ops dc bs H.
+    destruct (judge_ok_spec bucket wbucket row_of _ _ _ _ _ H) as [rid [dops [dd [r [Hin [Er [Hn [Hd _]]]]]]]].
+    apply denote2_cases in Hin. destruct Hin as [Hin|[rest [len' [Eb [_ Hin]]]]].
+    - left. eapply match_head_reading; eauto.
+    - right. exists rest. split; [exact Eb|]. eapply match_head_reading; eauto.
+  Qed.
 End WithDb.
+
+(* ------------------------------------------------------------------ the one-instruction reading of bytes that start with 9B
+   9B is not a prefix: the head decoder reads it as the opcode 9B of the legacy map 0, so a one-instruction denotation of 9B :: rest
+   comes from a row of bucket 9B (FWAIT itself); if that row has no ModRM byte and no immediate, it consumes exactly the one byte.  This
+   separates the two readings of `denote2`: the FWAIT reading has length 1, a wait reading at least 2. *)
+Lemma sdec_head_9b m rest : exists h, sdec_head m (155 :: rest) = Some (h, rest) /\ rh_opc h = 155 /\ rh_map h = 0 /\ rh_kind h = KLeg.
+Proof. destruct m; eexists; (split; [cbv; reflexivity | cbn; auto]). Qed.
+
+Definition plain_op_row (r : row) : bool := negb (r_modrm r) && negb (r_moffs r) && (r_imm r =? 0).
+
+Theorem denote_9b_is_bucket_9b : forall bucket m rest rid ops dd len,
+  In (rid, ops, dd, len) (denote bucket m (155 :: rest)) ->
+  exists r, In r (bucket 155) /\ r_id r = rid /\ r_map r = 0 /\ r_kind r = 0 /\ (plain_op_row r = true -> len = 1%nat).
+Proof.
+  intros bucket m rest rid ops dd len H.
+  destruct (denote_sound bucket _ _ _ _ _ _ H) as [h [rest' [r [s [t [Eh [I [Id [Hh [Et [_ [_ [_ El]]]]]]]]]]]]].
+  destruct (sdec_head_9b m rest) as [h0 [Eh0 [Ho [Hmap Hkind]]]]. rewrite Eh0 in Eh. inversion Eh; subst h0 rest'.
+  exists r. rewrite Ho in I.
+  assert (Hk : r_kind r = 0) by (rewrite (head_ok_kind _ _ _ Hh), Hkind; reflexivity).
+  assert (Hm0 : r_map r = 0).
+  { unfold head_ok in Hh. apply andb_prop in Hh. destruct Hh as [Hh _]. apply andb_prop in Hh. destruct Hh as [Hh _].
+    apply andb_prop in Hh. destruct Hh as [_ Hh]. apply Z.eqb_eq in Hh. congruence. }
+  repeat split; auto.
+  intros Hp. unfold plain_op_row in Hp. apply andb_prop in Hp. destruct Hp as [Hp Hi]. apply andb_prop in Hp. destruct Hp as [Hm Hf].
+  apply negb_true_iff in Hm, Hf. apply Z.eqb_eq in Hi.
+  unfold sdec_tail, shape_of_row, dec_modrm in Et. cbn [sh_modrm sh_imm] in Et. rewrite Hm, Hf, Hi in Et. cbn in Et.
+  inversion Et; subst. cbn [length]. lia.
+Qed.
